@@ -380,6 +380,7 @@ func interestingInt64s(r *Run, nrand int) []int64 {
 func lenClass(n int) string { return fmt.Sprintf("len%d", n) }
 
 func runC17(r *Run) {
+	c17WriteBuf(r)
 	if r.replay != nil {
 		replayC17(r)
 		return
